@@ -60,6 +60,8 @@ pub enum Form {
     Manual,
     /// `setup:` argument whose value holds an entered ambient frame until it is dropped
     SetupFn,
+    /// `#[span]` with the span id given explicitly among the properties: typed, as hex text, or as an integer
+    ExplicitIdFn,
     /// a hand-made guard with the public default completion (`completion::default(..)`), its `with_tpl`,
     /// `with_lvl`, `with_panic_lvl` setters applied in an order and subset derived from the span number
     DefaultCompl,
@@ -186,6 +188,8 @@ pub struct SpanInfo {
     pub expect_err: Option<Option<&'static str>>,
     /// the span was actually unwound by a panic (its own or one of a nested node)
     pub unwound: bool,
+    /// the span id the application gave the span explicitly (hex)
+    pub explicit_span_id: Option<String>,
 }
 
 #[derive(Clone, Debug)]
@@ -532,6 +536,7 @@ fn new_span_info(w: &World, st: &Strand, sid: u32, form: Form, exit: Exit, enabl
         needs_own_ids: false,
         expect_err: None,
         unwound: false,
+        explicit_span_id: None,
     };
     let mut l = lg(&w.log);
     l.trace.push(format!(
@@ -673,6 +678,21 @@ impl Drop for SetupFrame {
 
 #[emit::span(rt: &w.rt, setup: || SetupFrame::enter(w, sid), "span {sid}", sid)]
 fn span_setup_fn(w: &Arc<World>, st: &mut Strand, sid: u32, enabled: bool, body: &Arc<Vec<S>>, exit: Exit) {
+    body_sync(w, st, sid, enabled, body, exit)
+}
+
+#[emit::span(rt: &w.rt, "span {sid}", sid, span_id)]
+fn span_explicit_typed_fn(w: &Arc<World>, st: &mut Strand, sid: u32, span_id: emit::SpanId, enabled: bool, body: &Arc<Vec<S>>, exit: Exit) {
+    body_sync(w, st, sid, enabled, body, exit)
+}
+
+#[emit::span(rt: &w.rt, "span {sid}", sid, span_id)]
+fn span_explicit_text_fn(w: &Arc<World>, st: &mut Strand, sid: u32, span_id: &str, enabled: bool, body: &Arc<Vec<S>>, exit: Exit) {
+    body_sync(w, st, sid, enabled, body, exit)
+}
+
+#[emit::span(rt: &w.rt, "span {sid}", sid, span_id)]
+fn span_explicit_int_fn(w: &Arc<World>, st: &mut Strand, sid: u32, span_id: u64, enabled: bool, body: &Arc<Vec<S>>, exit: Exit) {
     body_sync(w, st, sid, enabled, body, exit)
 }
 
@@ -951,6 +971,17 @@ fn run_span_sync(w: &Arc<World>, st: &mut Strand, n: &S) {
         Form::SetupFn => {
             lg(&w.log).spans[ix].needs_own_ids = true;
             span_setup_fn(w, st, sid, enabled, body, exit)
+        }
+        Form::ExplicitIdFn => {
+            // an id the application brings along (from a request header it parsed itself, say): it is the span's id
+            let idv: u64 = 0xe000_0000_0000_0000 | sid as u64;
+            lg(&w.log).spans[ix].explicit_span_id = Some(format!("{idv:016x}"));
+            w.probe("span_with_explicit_id");
+            match sid % 3 {
+                0 => span_explicit_typed_fn(w, st, sid, emit::SpanId::from_u64(idv).unwrap(), enabled, body, exit),
+                1 => span_explicit_text_fn(w, st, sid, &format!("{idv:016x}"), enabled, body, exit),
+                _ => span_explicit_int_fn(w, st, sid, idv, enabled, body, exit),
+            }
         }
         Form::NewInfoSpanSync => {
             lg(&w.log).spans[ix].expect_lvl = Some(Some("info"));
@@ -1558,13 +1589,13 @@ pub fn gen_nodes(ch: &mut Choices, cfg: &GenCfg, depth: u32, budget: &mut u32, n
                 *next += 1;
                 let sid = *next;
                 let form = if c05 && is_async {
-                    *ch.pick(&[Form::Manual, Form::Manual, Form::Manual, Form::SyncFn, Form::ResultFn, Form::PanicLvlFn, Form::ResultPanicLvlFn, Form::InfoResultFn, Form::WhenFn, Form::WarnFn, Form::NewInfoSpanSync, Form::GuardFn, Form::NewSpanSync, Form::DefaultCompl, Form::DefaultCompl, Form::SetupFn, Form::AsyncFn, Form::AsyncFn, Form::NewSpanAsync])
+                    *ch.pick(&[Form::Manual, Form::Manual, Form::Manual, Form::SyncFn, Form::ResultFn, Form::PanicLvlFn, Form::ResultPanicLvlFn, Form::InfoResultFn, Form::WhenFn, Form::WarnFn, Form::NewInfoSpanSync, Form::GuardFn, Form::NewSpanSync, Form::DefaultCompl, Form::DefaultCompl, Form::SetupFn, Form::ExplicitIdFn, Form::AsyncFn, Form::AsyncFn, Form::NewSpanAsync])
                 } else if c05 {
-                    *ch.pick(&[Form::Manual, Form::Manual, Form::Manual, Form::SyncFn, Form::ResultFn, Form::PanicLvlFn, Form::ResultPanicLvlFn, Form::InfoResultFn, Form::WhenFn, Form::WarnFn, Form::NewInfoSpanSync, Form::GuardFn, Form::NewSpanSync, Form::DefaultCompl, Form::DefaultCompl, Form::SetupFn])
+                    *ch.pick(&[Form::Manual, Form::Manual, Form::Manual, Form::SyncFn, Form::ResultFn, Form::PanicLvlFn, Form::ResultPanicLvlFn, Form::InfoResultFn, Form::WhenFn, Form::WarnFn, Form::NewInfoSpanSync, Form::GuardFn, Form::NewSpanSync, Form::DefaultCompl, Form::DefaultCompl, Form::SetupFn, Form::ExplicitIdFn])
                 } else if is_async {
-                    *ch.pick(&[Form::AsyncFn, Form::AsyncFn, Form::NewSpanAsync, Form::SyncFn, Form::NewSpanSync, Form::ResultFn, if TP { Form::SyncFn } else { Form::WhenFn }, Form::WarnFn])
+                    *ch.pick(&[Form::AsyncFn, Form::AsyncFn, Form::NewSpanAsync, Form::SyncFn, Form::NewSpanSync, Form::ResultFn, if TP { Form::SyncFn } else { Form::WhenFn }, Form::WarnFn, Form::ExplicitIdFn])
                 } else {
-                    *ch.pick(&[Form::SyncFn, Form::SyncFn, Form::NewSpanSync, Form::ResultFn, Form::GuardFn, if TP { Form::SyncFn } else { Form::WhenFn }, Form::NewInfoSpanSync])
+                    *ch.pick(&[Form::SyncFn, Form::SyncFn, Form::NewSpanSync, Form::ResultFn, Form::GuardFn, if TP { Form::SyncFn } else { Form::WhenFn }, Form::NewInfoSpanSync, Form::ExplicitIdFn])
                 };
                 let exit = if c05 {
                     *ch.pick(&[Exit::Fall, Exit::Fall, Exit::Err, Exit::Panic])
@@ -2049,6 +2080,10 @@ fn posthoc(w: &World, focus: &'static str) {
             continue;
         }
         let Some(rec) = by_sid.get(&s.sid).and_then(|r| r.first()) else { continue };
+        // (a span id given explicitly among a span's own properties: which of the two ids - the given one or the generated
+        // one - the span reports is not something any of the statements speaks of; on this tree it is the generated one,
+        // everywhere. What is judged is that the span, whichever id it reports, is consistent with everything around it.)
+        let _ = &s.explicit_span_id;
         match &rec.span_id {
             None => v.push((c04, "span_id_missing", format!("span {} completed inside its frame without a span id", s.sid))),
             Some(id) => {
